@@ -2,7 +2,7 @@
 # tools/seeded_matrix.sh [tier] [ids...] — run every kept seeded change against its property's
 # check (in the scratch mutant runner, never in /repo) and write /verif/seeded/RESULTS.json.
 TIER="${1:-quick}"; shift
-IDS="$@"; [ -z "$IDS" ] && IDS=$(ls /verif/seeded | grep -E '^c[0-9]+-m[0-9]+$')
+IDS="$@"; [ -z "$IDS" ] && IDS=$(ls /verif/seeded | grep -E '^(r[0-9]+-)?c[0-9]+-m[0-9]+$')
 OUT=/verif/seeded/RESULTS.json
 python3 - "$TIER" $IDS <<'PY'
 import json, subprocess, sys, os, re
